@@ -356,6 +356,7 @@ def observe_bay_size(bd, r):
 
 def random_skin_bay(rng):
     pd = panelmat.random_pd(rng, ["plate", "plate", "cpanel"])
+    pd.pop("ortho", None)               # StiffPanelBay offers no force_orthotropic_laminate switch
     pd["m"], pd["n"] = min(pd["m"], 3), min(pd["n"], 3)
     pd["y1"], pd["y2"] = rat(0), pd["b"]
     pd["Ncte"] = [rat(0)] * 3
